@@ -226,11 +226,14 @@ func getObjListType(l []string, v vsysInfo) objListType {
 			return anyT
 		}
 		if g := v.groups[e]; g != nil {
-			if getObjListType(g.Members, v) == listT {
-				return groupT
-			}
 			// Nested groups are not supported.
-			return unknownT
+			// Must not call recursively, group could reference itself.
+			for _, m := range g.Members {
+				if v.addresses[m] == nil {
+					return unknownT
+				}
+			}
+			return groupT
 		}
 	}
 	for _, e := range l {
@@ -255,8 +258,11 @@ func (ab *rulesPair) markAddresses(l []string) {
 			// Preliminary mark group from Netspoc as needed.  Mark will
 			// be moved to group on device later if an equivalent group
 			// is found.
-			g.needed = true
-			ab.markAddresses(g.Members)
+			// Prevent endless recursion if group references itself.
+			if !g.needed {
+				g.needed = true
+				ab.markAddresses(g.Members)
+			}
 			continue
 		}
 		aB := ab.b.addresses[name]
